@@ -2,6 +2,7 @@ package main
 
 import (
 	"bytes"
+	"sort"
 	"strings"
 
 	"github.com/gcash/bchd/chaincfg/chainhash"
@@ -49,9 +50,40 @@ func buildSortTx(ins, outs string) *wire.MsgTx {
 	}
 	for _, s := range splitOr(outs, ",") {
 		f := strings.Split(s, ":")
-		tx.AddTxOut(wire.NewTxOut(atoi64(f[0]), unhx(f[1]), wire.TokenData{}))
+		sc := unhx(f[1])
+		td := wire.TokenData{}
+		if len(sc) > 0 && sc[0] == 0xff {
+			// outputs whose script starts with ff carry CashToken data (a function of amount and script, so that
+			// equal sort keys mean equal outputs)
+			var cat [32]byte
+			for i := range cat {
+				cat[i] = sc[i%len(sc)]
+			}
+			amt := uint64(atoi64(f[0])&0xffff) + 1
+			if t, err := wire.NewTokenData(cat, &amt, nil, nil); err == nil {
+				td = *t
+			}
+		}
+		tx.AddTxOut(wire.NewTxOut(atoi64(f[0]), sc, td))
 	}
 	return tx
+}
+
+// elemSers: the full wire serialisation of every input and output on its own, sorted (a multiset)
+func elemSers(tx *wire.MsgTx) string {
+	t := []string{}
+	for _, in := range tx.TxIn {
+		one := wire.NewMsgTx(1)
+		one.AddTxIn(in)
+		t = append(t, "i"+hx(serTx(one)))
+	}
+	for _, o := range tx.TxOut {
+		one := wire.NewMsgTx(1)
+		one.AddTxOut(o)
+		t = append(t, "o"+hx(serTx(one)))
+	}
+	sort.Strings(t)
+	return strings.Join(t, ",")
 }
 
 func insTok(tx *wire.MsgTx) string {
@@ -84,7 +116,10 @@ func execC18(c Case) string {
 		s := txsort.Sort(tx)
 		unchanged := bytes.Equal(before, serTx(tx))
 		sortedIns, sortedOuts := insTok(s), outsTok(s)
-		meta := s.Version == tx.Version && s.LockTime == tx.LockTime
+		// "exactly the same inputs and outputs and otherwise identical fields": every field of every element
+		// (scripts, sequence numbers, token data) survives, not just the sort keys
+		meta := s.Version == tx.Version && s.LockTime == tx.LockTime && elemSers(s) == elemSers(tx)
+		sortedSer := serTx(s)
 		isS := txsort.IsSorted(s)
 		s2 := txsort.Sort(s)
 		idem := bytes.Equal(serTx(s), serTx(s2))
@@ -104,6 +139,7 @@ func execC18(c Case) string {
 		indep := bytes.Equal(before, serTx(tx))
 		tx2 := buildSortTx(a[0], a[1])
 		txsort.InPlaceSort(tx2)
+		meta = meta && bytes.Equal(sortedSer, serTx(tx2))
 		return strings.Join([]string{sortedIns, sortedOuts, b2s(wasSorted), b2s(isS), b2s(unchanged), b2s(meta), b2s(idem), b2s(indep), insTok(tx2), outsTok(tx2)}, " ")
 	}
 	panic("harness: op")
@@ -327,6 +363,48 @@ func genC19(r *Rng, tier string, emit func(Case)) {
 			}
 		}
 		rec(nil)
+	}
+	// realistic magnitudes: values of 10^10..10^12 satoshi with 10^4..2*10^5 confirmations give value-ages above
+	// 2^53 (where float64 arithmetic stops being exact); thresholds sit exactly on / next to the value-age sums
+	nl := 600
+	if tier == "thorough" {
+		nl = 20000
+	}
+	for i := 0; i < nl; i++ {
+		k := 1 + r.Intn(5)
+		coins := []string{}
+		vs, vas := []int64{}, []int64{}
+		for j := 0; j < k; j++ {
+			v := int64(10000000000) + int64(r.U64()%990000000000)
+			if r.Intn(4) == 0 {
+				v = int64(r.Pick(1, 2, 3)) * 100000000000
+			}
+			v += int64(r.Pick(0, 0, 1, 1, 2, 3))
+			cf := int64(10000 + r.Intn(190000))
+			if r.Intn(4) == 0 {
+				cf = int64(r.Pick(50000, 100000, 200000) + r.Pick(0, 1, 2))
+			}
+			coins = append(coins, i64s(v)+":"+i64s(cf))
+			vs, vas = append(vs, v), append(vas, v*cf)
+		}
+		// a random subset: target = its value, minimum average = its average value-age, each shifted by -1/0/+1
+		var tv, tva int64
+		cnt := int64(0)
+		for j := 0; j < k; j++ {
+			if r.Intn(3) != 0 || (j == k-1 && cnt == 0) {
+				tv, tva, cnt = tv+vs[j], tva+vas[j], cnt+1
+			}
+		}
+		avg := tva / cnt
+		if r.Bool() && tva%cnt != 0 {
+			avg++ // the rounded-up quotient
+		}
+		e("sel", "large", "minpriority", itoa(r.Pick(int(cnt), int(cnt), k, k+1, 1)), i64s(int64(r.Pick(0, 0, 1, 1000))),
+			i64s(avg+int64(r.Pick(-1, 0, 0, 1))), i64s(tv+int64(r.Pick(-1, 0, 0, 0, 1))), strings.Join(coins, ","))
+		if i%4 == 0 {
+			e("sel", "large", sels[r.Intn(3)], itoa(r.Pick(int(cnt), k, 1)), i64s(int64(r.Pick(0, 1, 1000))), "0",
+				i64s(tv+int64(r.Pick(-1, 0, 1))), strings.Join(coins, ","))
+		}
 	}
 	n := 3000
 	if tier == "thorough" {
